@@ -1,2 +1,14 @@
 import OmplModel.Props.C12
-#print axioms OmplModel.Props.C12.clear_size
+#print axioms OmplModel.Props.C12.shape_preserved
+#print axioms OmplModel.Props.C12.idx_sync_preserved
+#print axioms OmplModel.Props.C12.handles_exact
+#print axioms OmplModel.Props.C12.sample_inbounds_of_shape
+#print axioms OmplModel.Props.C12.sample_inbounds
+#print axioms OmplModel.Props.C12.getWeight_reads_leaf
+#print axioms OmplModel.Props.C12.driftState_shape
+#print axioms OmplModel.Props.C12.sampleOld_oob_of_drift
+#print axioms OmplModel.Props.C12.sample_fixed_on_drift
+#print axioms OmplModel.Props.C12.sum_preserved
+#print axioms OmplModel.Props.C12.reachable_inv
+#print axioms OmplModel.Props.C12.sample_spec
+#print axioms OmplModel.Props.C12.zero_weight_never_drawn
